@@ -37,6 +37,8 @@ structure Cfg where
   listNotCoerced : Bool := true     -- D09: a literal list is never passed to `List.CoerceIn`; under `[T]!` its elements are not coerced at all
   symbolUnchecked : Bool := true    -- D10: a symbol is only checked against enum types, and passes for every other type
   nullVarUsesDefault : Bool := true -- D41: `vars[name] != nil` — an explicit null does not override the default
+  symbolBaseEnum : Bool := true     -- D68: a symbol is checked against the *base* type (lists stripped too): `RED` for `[Color]` reaches the resolver as a bare symbol
+  objectUnchecked : Bool := true    -- D65: an object literal is only looked at when the *base* type (lists stripped too) is an input object; for any other type it passes unchanged
 
 variable {F : Type}
 
@@ -51,6 +53,24 @@ def setKey {α} (kvs : List (String × α)) (k : String) (v : α) : List (String
   if kvs.any (fun p => p.1 == k) then kvs.map (fun p => if p.1 == k then (k, v) else p) else kvs ++ [(k, v)]
 
 def inTables (tin : Scalar → Table) := tin
+
+/-- one declared field of `Input.CoerceIn`: default / required / coerce; `co` coerces a field value -/
+def inputStep (co : InT → Val F → Val F × Bool) (acc : List (String × Val F) × Bool) (f : InField F) :
+    List (String × Val F) × Bool :=
+  if acc.2 then acc else
+  match lookup acc.1 f.name with
+  | some ov =>
+    if ov.isNil then
+      (match f.dflt with
+       | some dv => (setKey acc.1 f.name dv, false)
+       | none => (match f.type with | .nonNull _ => (acc.1, true) | _ => (acc.1, false)))
+    else
+      let (cv, e) := co f.type ov
+      if e then (acc.1, true) else (setKey acc.1 f.name cv, false)
+  | none =>
+    (match f.dflt with
+     | some dv => (setKey acc.1 f.name dv, false)
+     | none => (match f.type with | .nonNull _ => (acc.1, true) | _ => (acc.1, false)))
 
 /-- `Type.CoerceIn` for every input type; `fuel` bounds the nesting of input objects -/
 def coerceInT (ext : Ext F) (tin : Scalar → Table) (inputs : List (InputDef F)) :
@@ -87,22 +107,7 @@ def coerceInT (ext : Ext F) (tin : Scalar → Table) (inputs : List (InputDef F)
             if kvs.any (fun p => !d.fields.any (fun f => f.name == p.1)) then (.go .nil, true)
             else
               -- every declared field: default / required / coerce
-              let step := fun (acc : List (String × Val F) × Bool) (f : InField F) =>
-                if acc.2 then acc else
-                match lookup acc.1 f.name with
-                | some ov =>
-                  if ov.isNil then
-                    (match f.dflt with
-                     | some dv => (setKey acc.1 f.name dv, false)
-                     | none => (match f.type with | .nonNull _ => (acc.1, true) | _ => (acc.1, false)))
-                  else
-                    let (cv, e) := coerceInT ext tin inputs fuel f.type ov
-                    if e then (acc.1, true) else (setKey acc.1 f.name cv, false)
-                | none =>
-                  (match f.dflt with
-                   | some dv => (setKey acc.1 f.name dv, false)
-                   | none => (match f.type with | .nonNull _ => (acc.1, true) | _ => (acc.1, false)))
-              let (kvs', e) := d.fields.foldl step (kvs, false)
+              let (kvs', e) := d.fields.foldl (inputStep (coerceInT ext tin inputs fuel)) (kvs, false)
               if e then (.go .nil, true) else (.obj kvs', false))
        | _ => (.go .nil, true))
 
@@ -123,7 +128,15 @@ def replaceArgVars (cfg : Cfg) (ext : Ext F) (tin : Scalar → Table) (inputs : 
        | some t => let (r, e) := coerceInT ext tin inputs 64 t val; (r, if e then 1 else 0)
        | none => (val, 0))
     | .obj kvs =>
-      (match at_.map baseType with
+      -- as coded in the first commit (D65): `BaseType(at)` strips list wrappers as well, and nothing is done when
+      -- the base type is not an input object; repaired: the type itself or what its `!` wraps, else the type's CoerceIn
+      let inputOf : Option InT :=
+        if cfg.objectUnchecked then at_.map baseType
+        else (match at_ with
+              | some (.input n) => some (.input n)
+              | some (.nonNull (.input n)) => some (.input n)
+              | _ => none)
+      (match inputOf with
        | some (.input name) =>
          let fieldT := fun k => (inputs.find? (fun d => d.name == name)).bind (fun d => (d.fields.find? (fun f => f.name == k)).map (·.type))
          let rs := kvs.map (fun p => (p.1, replaceArgVars cfg ext tin inputs vars fuel (fieldT p.1) p.2))
@@ -132,7 +145,12 @@ def replaceArgVars (cfg : Cfg) (ext : Ext F) (tin : Scalar → Table) (inputs : 
          let (r, e) := coerceInT ext tin inputs 64 (.input name) (.obj kvs')
          -- on error Input.CoerceIn returns nil
          (r, errs + (if e then 1 else 0))
-       | _ => (v, 0))
+       | _ =>
+         (match at_ with
+          | some t =>
+            if cfg.objectUnchecked then (v, 0)
+            else let (r, e) := coerceInT ext tin inputs 64 t v; (r, if e then 1 else 0)
+          | none => (v, 0)))
     | .list xs =>
       let mt : Option InT := match at_ with
         | some (.list b) => some b
@@ -148,7 +166,13 @@ def replaceArgVars (cfg : Cfg) (ext : Ext F) (tin : Scalar → Table) (inputs : 
          if cfg.listNotCoerced then (l, errs)
          else let (r, e) := coerceInT ext tin inputs 64 t l; (r, errs + (if e then 1 else 0)))
     | .go (.sym s) =>
-      (match at_.map baseType with
+      let enumOf : Option InT :=
+        if cfg.symbolBaseEnum then at_.map baseType
+        else (match at_ with
+              | some (.enum vals) => some (.enum vals)
+              | some (.nonNull (.enum vals)) => some (.enum vals)
+              | _ => none)
+      (match enumOf with
        | some (.enum vals) => (v, if vals.contains s then 0 else 1)
        | _ =>
          -- repaired: a symbol for a type that is not an enum goes through that type's `CoerceIn`
@@ -178,31 +202,47 @@ structure Outcome (F : Type) where
   args : List (String × Val F)     -- what the resolver received (declared order)
   nerr : Nat
 
+/-- one variable definition of `ResolveExecutable`'s binding loop -/
+def bindStep (cfg : Cfg) (ext : Ext F) (tin : Scalar → Table) (inputs : List (InputDef F))
+    (supplied : List (String × Val F)) (acc : List (String × Val F) × Bool) (vd : VarDef F) : List (String × Val F) × Bool :=
+  if acc.2 then acc else
+  let d := vd.dflt.getD (.go .nil)
+  match lookup supplied vd.name with
+  | some v =>
+    if v.isNil && cfg.nullVarUsesDefault then (acc.1 ++ [(vd.name, d)], false)
+    else
+      let (r, e) := coerceInT ext tin inputs 64 vd.type v
+      if e then (acc.1, true) else (acc.1 ++ [(vd.name, r)], false)
+  | none => (acc.1 ++ [(vd.name, d)], false)
+
+/-- `ResolveExecutable`: variable binding (bound variables, request refused) -/
+def bindVars (cfg : Cfg) (ext : Ext F) (tin : Scalar → Table) (inputs : List (InputDef F))
+    (supplied : List (String × Val F)) (vdefs : List (VarDef F)) : List (String × Val F) × Bool :=
+  vdefs.foldl (bindStep cfg ext tin inputs supplied) ([], false)
+
+/-- `formArgs`: every given argument, in declared order (sortArgs has already arranged them), with its value
+after `replaceArgVars` and the number of errors that reported -/
+def argResults (cfg : Cfg) (ext : Ext F) (tin : Scalar → Table) (inputs : List (InputDef F))
+    (opVars : List (String × Val F)) (decl : List ArgDef) (given : List (String × Val F)) : List (String × Val F × Nat) :=
+  decl.filterMap (fun a => (lookup given a.name).map (fun v =>
+    (a.name, replaceArgVars cfg ext tin inputs opVars 64 (some a.type) v)))
+
+def ArgDef.required (a : ArgDef) : Bool := match a.type with | .nonNull _ => true | _ => false
+
+/-- `formArgs`: declared non-null arguments that were not given a non-nil literal / variable expression -/
+def missingArgs (decl : List ArgDef) (given : List (String × Val F)) : List ArgDef :=
+  decl.filter (fun a => a.required && (match lookup given a.name with | some v => v.isNil | none => true))
+
 /-- `ResolveExecutable` variable binding followed by `formArgs` for one field -/
 def formArgs (cfg : Cfg) (ext : Ext F) (tin : Scalar → Table) (inputs : List (InputDef F))
     (vdefs : List (VarDef F)) (supplied : List (String × Val F))
     (decl : List ArgDef) (given : List (String × Val F)) : Outcome F :=
-  -- variable binding
-  let bind := fun (acc : List (String × Val F) × Bool) (vd : VarDef F) =>
-    if acc.2 then acc else
-    let d := vd.dflt.getD (.go .nil)
-    match lookup supplied vd.name with
-    | some v =>
-      if v.isNil && cfg.nullVarUsesDefault then (acc.1 ++ [(vd.name, d)], false)
-      else
-        let (r, e) := coerceInT ext tin inputs 64 vd.type v
-        if e then (acc.1, true) else (acc.1 ++ [(vd.name, r)], false)
-    | none => (acc.1 ++ [(vd.name, d)], false)
-  let (opVars, failed) := vdefs.foldl bind ([], false)
+  let (opVars, failed) := bindVars cfg ext tin inputs supplied vdefs
   if failed then { reqFailed := true, called := false, args := [], nerr := 1 } else
-  -- sortArgs has already put the given arguments in declared order (nil for the absent ones)
-  let rs := decl.filterMap (fun a => (lookup given a.name).map (fun v =>
-    (a.name, replaceArgVars cfg ext tin inputs opVars 64 (some a.type) v)))
+  let rs := argResults cfg ext tin inputs opVars decl given
   let args := rs.map (fun p => (p.1, p.2.1))
   let errs := (rs.map (fun p => p.2.2)).sum
-  -- required: declared non-null arguments that were not given a non-nil literal/variable expression
-  let missing := decl.filter (fun a => (match a.type with | .nonNull _ => true | _ => false) &&
-    (match lookup given a.name with | some v => v.isNil | none => true))
+  let missing := missingArgs decl given
   let nerr := errs + missing.length
   { reqFailed := false, called := nerr == 0, args := if nerr == 0 then args else [], nerr := nerr }
 
